@@ -381,3 +381,78 @@ func TestTicker(t *testing.T) {
 		t.Fatalf("n=%d stuck=%v panics=%v simulated=%v", n, out.Stuck, out.Panics, time.Duration(out.SimNanos))
 	}
 }
+
+// Real sync.RWMutex: a pending writer excludes new readers (so a recursive read
+// lock can deadlock), TryRLock fails while a writer waits, TryLock fails while
+// readers are inside. The model must be able to produce exactly those outcomes.
+func TestRWMutexWriterPreference(t *testing.T) {
+	sawDeadlock, sawFinish := false, false
+	for seed := uint64(1); seed <= 400; seed++ {
+		s := simrt.New(simrt.Config{Seed: seed, Strategy: simrt.StratRandom})
+		var rw ssync.RWMutex
+		s.Go(func() {
+			rw.RLock()
+			simrt.Yield()
+			rw.RLock() // recursive read lock: deadlocks iff a writer announced itself in between
+			rw.RUnlock()
+			rw.RUnlock()
+		})
+		s.Go(func() {
+			rw.Lock()
+			rw.Unlock()
+		})
+		out := s.Run()
+		if out.Stuck {
+			sawDeadlock = true
+		} else {
+			sawFinish = true
+		}
+	}
+	if !sawDeadlock || !sawFinish {
+		t.Fatalf("recursive RLock with a concurrent writer: deadlock seen=%v, completion seen=%v (both are possible in Go)", sawDeadlock, sawFinish)
+	}
+	// Try* against the real primitive in the same situations
+	var real sync.RWMutex
+	real.RLock()
+	if real.TryLock() {
+		t.Fatal("real TryLock succeeded with a reader inside")
+	}
+	s := simrt.New(simrt.Config{Seed: 1, Strategy: simrt.StratRoundRobin})
+	var rw ssync.RWMutex
+	okW, okR := true, false
+	s.Go(func() {
+		rw.RLock()
+		okW = rw.TryLock()
+		okR = rw.TryRLock()
+		rw.RUnlock()
+		rw.RUnlock()
+	})
+	if out := s.Run(); out.Stuck || okW || !okR {
+		t.Fatalf("with a reader inside: TryLock=%v (want false) TryRLock=%v (want true) stuck=%v", okW, okR, out.Stuck)
+	}
+}
+
+// Timer.Stop and Reset report what the runtime reports: true while the timer is
+// pending, false once it has fired or was stopped.
+func TestTimerStopReset(t *testing.T) {
+	s := simrt.New(simrt.Config{Seed: 1, Strategy: simrt.StratRoundRobin})
+	var r []bool
+	s.Go(func() {
+		tm := stime.NewTimer(time.Second)
+		r = append(r, tm.Stop())                  // pending: true
+		r = append(r, tm.Stop())                  // already stopped: false
+		r = append(r, tm.Reset(time.Millisecond)) // was stopped: false
+		stime.Sleep(10 * time.Millisecond)
+		r = append(r, tm.Stop()) // fired: false
+		select {
+		case <-tm.C:
+			r = append(r, true) // the tick is in the channel
+		default:
+			r = append(r, false)
+		}
+	})
+	s.Run()
+	if fmt.Sprint(r) != "[true false false false true]" {
+		t.Fatalf("got %v", r)
+	}
+}
